@@ -159,6 +159,12 @@ def check_bytes(case):
         dersig[positions[m["pos"] % len(positions)]] ^= 1 << (m["bit"] % 8)
     elif kind == "neg-s":
         dersig = bytearray(der.encode(rs[0], N - rs[1]))
+    elif kind == "infinity":
+        # keep (r, s) and the message, swap in the key P = (-z/r)G: then u1*G + u2*P is the point at infinity
+        d_inf = (-z) * pow(rs[0], -1, N) % N
+        if d_inf:
+            pk = bytearray(ec.sec1_encode(ec.pub(d_inf), case["comp"]))
+        label = "u1G+u2P=infinity"
     sig = bytes(dersig) + bytes([flagbyte & 0xFF])
     pkb = bytes(pk)
     # expected verdict
@@ -283,7 +289,7 @@ def verify_cases(draw):
 
 @st.composite
 def bytes_cases(draw):
-    kind = draw(st.sampled_from(["none", "msg", "flag", "pk-byte", "pk-byte", "pk-hybrid", "pk-len", "pk-x>=p", "pk-other", "der-value", "der-value", "der-struct", "der-struct", "neg-s"]))
+    kind = draw(st.sampled_from(["none", "msg", "flag", "pk-byte", "pk-byte", "pk-hybrid", "pk-len", "pk-x>=p", "pk-other", "der-value", "der-value", "der-struct", "der-struct", "neg-s", "infinity"]))
     m = {"kind": kind, "pos": draw(st.integers(0, 200)), "bit": draw(st.integers(0, 7))}
     if kind == "flag":
         m["to"] = draw(st.sampled_from(FLAGS + [0, 4, 0x80, 0xFF]))
@@ -339,7 +345,7 @@ def targets(tier):
         Target("verify-secp", check_verify, strategy=lambda tier: verify_cases(), budget={"quick": 640, "thorough": 10000},
                required=["mut:s->n-s", "mut:z+n", "mut:u1G+u2P=infinity", "mut:other-key", "nt:expect-accept", "nt:expect-reject", "mut:flip-px"]),
         Target("sigverify-bytes", check_bytes, strategy=lambda tier: bytes_cases(), budget={"quick": 640, "thorough": 10000},
-               required=["mut:der-struct", "mut:der-value", "mut:pk-hybrid", "mut:pk-len-otherform", "mut:flag", "mut:msg", "nt:expect-accept", "nt:expect-reject"]),
+               required=["mut:der-struct", "mut:der-value", "mut:pk-hybrid", "mut:pk-len-otherform", "mut:flag", "mut:msg", "mut:u1G+u2P=infinity", "nt:expect-accept", "nt:expect-reject"]),
         Target("low-s", check_lows, strategy=lambda tier: lows_cases(), budget={"quick": 3000, "thorough": 40000},
                required=["nt:complement-short", "nt:complement-short-topbit", "nt:s-at-half", "nt:verified"]),
         Target("small-curve", check_small, enumerate_=enum_small, exhaustive=True),
